@@ -2,10 +2,12 @@
 # setup: build the framework once from files on disk (warms the go build cache for go1.26.8, incl. -race).
 set -u
 export GOFLAGS=-mod=mod GOPROXY=off GOSUMDB=off GOTOOLCHAIN=local
-cd /verif || exit 2
-cp /repo/go.sum /verif/go.sum 2>/dev/null; cat /verif/go.sum.extra >> /verif/go.sum 2>/dev/null
-mkdir -p /verif/bin /verif/evidence /verif/replays
-go1.26.8 build -o /verif/bin/verifrun ./cmd/verifrun || exit 2
+HERE=$(cd "$(dirname "$(readlink -f "$0")")" && pwd)
+export VERIF_DIR=$HERE
+cd "$HERE" || exit 2
+cp /repo/go.sum "$HERE/go.sum" 2>/dev/null; cat "$HERE/go.sum.extra" >> "$HERE/go.sum" 2>/dev/null
+mkdir -p "$HERE/bin" "$HERE/evidence" "$HERE/replays"
+go1.26.8 build -o "$HERE/bin/verifrun" ./cmd/verifrun || exit 2
 T=$(mktemp -d /tmp/verif-setup-XXXXXX)
 ./build.sh "$T" || { rm -rf "$T"; exit 2; }
 ./build.sh "$T" race || { rm -rf "$T"; exit 2; }
